@@ -18,6 +18,15 @@ Proof.
   apply andb_true_iff in H. destruct H as (H & _). apply andb_true_iff in H. tauto.
 Qed.
 
+Lemma agg_premises_split :
+  locks_whole_body agg_composite aggregation_methods = true /\
+  lockset_ok agg_thr agg_multi aggregation_accesses = true /\
+  guarded_by aggregation_f_mutex aggregation_accesses = true.
+Proof.
+  pose proof agg_premises_hold as H. unfold agg_premises in H.
+  apply andb_true_iff in H. destruct H as (H & H3). apply andb_true_iff in H. tauto.
+Qed.
+
 Section AggProofs.
   Variables State Op Result : Type.
   Variable step : State -> Op -> State * Result.
